@@ -130,6 +130,7 @@ type chain struct {
 	subs      []submission
 	accept    bool
 	advance   bool // an accepted block becomes the best block (the later rounds of a longer history)
+	onAccept  func()
 }
 
 func (c *chain) BestBlockNode() *blockchain.BlockNode {
@@ -146,6 +147,11 @@ func (c *chain) ProcessBlock(b *massutil.Block) (bool, error) {
 	c.subs = append(c.subs, submission{time.Now(), b})
 	if !c.accept {
 		return false, errors.New("scripted rejection")
+	}
+	if c.onAccept != nil {
+		f := c.onAccept
+		c.onAccept = nil
+		go f()
 	}
 	if c.advance {
 		c.best = &blockchain.BlockNode{Hash: b.Hash(), Height: b.Height(), CapSum: new(big.Int).Add(c.best.CapSum, big.NewInt(1)), Timestamp: b.MsgBlock().Header.Timestamp, Quality: big.NewInt(1)}
@@ -208,6 +214,9 @@ type scenario struct {
 	subs     []submission
 	mined    bool
 	signed   []string
+	t0       time.Time // start of the batch the scenario ran in
+	now0     uint64
+	handoff  bool   // "mined" with a late reader of the new-block channel and a stop during the hand-over
 	second   string // error of a second round for the same height
 	later    string // "" or what happened when the height was offered again after the chain went on and came back (reorganisation)
 	problems []string
@@ -253,31 +262,90 @@ func main() {
 	for i := 0; i < n; i++ {
 		scs = append(scs, gen(h, i))
 	}
-	// start all scenarios just after a slot boundary
-	now := time.Now()
-	next := now.Truncate(pocSlot * time.Second).Add(pocSlot * time.Second)
-	if rem := now.Unix() % pocSlot; rem == 0 && now.Nanosecond() < 100e6 {
-		next = now
+	// The scenarios run in real time (slots of 3 s, timers at fractions of a slot).  On a machine that is busy with other
+	// work the timers fire late and the scripted events no longer fall where the scenario puts them; such a run says nothing
+	// about the miner.  A monitor measures how late a 5 ms sleep wakes up; a disturbed attempt is repeated (at most three
+	// times, later attempts in smaller parallel batches), and only an undisturbed attempt is judged.
+	saved := make([]scenario, len(scs))
+	for i, sc := range scs {
+		saved[i] = *sc
 	}
-	time.Sleep(time.Until(next.Add(80 * time.Millisecond)))
-	t0 := time.Now()
-	now0 := uint64(t0.Unix()) / pocSlot
-	var wg sync.WaitGroup
-	for _, sc := range scs {
-		wg.Add(1)
-		go func(sc *scenario) {
-			defer wg.Done()
-			defer func() {
-				if r := recover(); r != nil {
-					sc.problems = append(sc.problems, fmt.Sprintf("panic: %v", r))
+	var t0 time.Time
+	var now0 uint64
+	attempts, worstLag := 0, time.Duration(0)
+	for attempt := 0; attempt < 3; attempt++ {
+		attempts++
+		for i := range scs {
+			*scs[i] = saved[i]
+		}
+		stopMon := make(chan struct{})
+		lagCh := make(chan time.Duration, 1)
+		go func() {
+			var worst time.Duration
+			for {
+				select {
+				case <-stopMon:
+					lagCh <- worst
+					return
+				default:
 				}
-			}()
-			run(sc, t0, now0)
-		}(sc)
+				t := time.Now()
+				time.Sleep(5 * time.Millisecond)
+				if d := time.Since(t) - 5*time.Millisecond; d > worst {
+					worst = d
+				}
+			}
+		}()
+		batch := len(scs) >> uint(attempt)
+		if batch < 1 {
+			batch = 1
+		}
+		for lo := 0; lo < len(scs); lo += batch {
+			hi := lo + batch
+			if hi > len(scs) {
+				hi = len(scs)
+			}
+			// start the batch just after a slot boundary
+			now := time.Now()
+			next := now.Truncate(pocSlot * time.Second).Add(pocSlot * time.Second)
+			if rem := now.Unix() % pocSlot; rem == 0 && now.Nanosecond() < 100e6 {
+				next = now
+			}
+			time.Sleep(time.Until(next.Add(80 * time.Millisecond)))
+			t0 = time.Now()
+			now0 = uint64(t0.Unix()) / pocSlot
+			var wg sync.WaitGroup
+			for _, sc := range scs[lo:hi] {
+				wg.Add(1)
+				go func(sc *scenario, t0 time.Time, now0 uint64) {
+					defer wg.Done()
+					defer func() {
+						if r := recover(); r != nil {
+							sc.problems = append(sc.problems, fmt.Sprintf("panic: %v", r))
+						}
+					}()
+					sc.t0, sc.now0 = t0, now0
+					run(sc, t0, now0)
+				}(sc, t0, now0)
+			}
+			wg.Wait()
+		}
+		close(stopMon)
+		worstLag = <-lagCh
+		if worstLag < 100*time.Millisecond {
+			break
+		}
+		h.Res.Notes = append(h.Res.Notes, fmt.Sprintf("attempt %d: a 5 ms sleep woke up %v late - the machine is busy, the real-time scenarios of this attempt are not judged", attempt+1, worstLag))
 	}
-	wg.Wait()
+	h.Res.Extra["attempts"] = attempts
+	h.Res.Extra["worst_timer_lag_ms"] = worstLag.Milliseconds()
+	if worstLag >= 100*time.Millisecond {
+		// three disturbed attempts: nothing is judged (a late timer is the machine's doing, not the miner's)
+		h.Res.Notes = append(h.Res.Notes, "all attempts were disturbed by other load on the machine: the real-time miner scenarios were NOT judged in this run")
+		scs = nil
+	}
 	for _, sc := range scs {
-		emit(h, sc, now0)
+		emit(h, sc, sc.now0)
 	}
 	h.Res.Extra["scenarios"] = n
 	h.Res.Extra["wall_s"] = time.Since(t0).Seconds()
@@ -316,6 +384,7 @@ func gen(h *hx.H, i int) *scenario {
 		sc.event = "none"
 	case kind == 10:
 		sc.event = "mined"
+		sc.handoff = i%2 == 1 // the announcement of the mined block finds no reader for a while, and the miner is stopped meanwhile
 	case kind == 11:
 		sc.event = "reject"
 	case kind == 12:
@@ -443,7 +512,11 @@ func run(sc *scenario, t0 time.Time, now0 uint64) {
 		out <- bt
 	}
 	ch.templates = []func(chan interface{}){mkTemplate, mkTemplate}
-	mi, err := miner.NewSyncMiner(true, miner.Chain(ch), miner.SyncManager(syncMgr{}), spacekeeper.SpaceKeeper(kp), make(chan *wire.Hash, 8), payout)
+	nbc := make(chan *wire.Hash, 8)
+	if sc.handoff {
+		nbc = make(chan *wire.Hash) // nobody reads yet
+	}
+	mi, err := miner.NewSyncMiner(true, miner.Chain(ch), miner.SyncManager(syncMgr{}), spacekeeper.SpaceKeeper(kp), nbc, payout)
 	if err != nil {
 		panic(err)
 	}
@@ -454,6 +527,17 @@ func run(sc *scenario, t0 time.Time, now0 uint64) {
 	}
 	stopOnce := sync.Once{}
 	stop := func() { stopOnce.Do(func() { close(quit) }) }
+	if sc.handoff {
+		// the chain has accepted the block; its announcement waits for a reader; the miner is stopped 100 ms later;
+		// the reader turns up after 600 ms.  However that ends, the height counts as mined.
+		ch.onAccept = func() {
+			time.AfterFunc(100*time.Millisecond, stop)
+			time.AfterFunc(600*time.Millisecond, func() {
+				for range nbc {
+				}
+			})
+		}
+	}
 	var timers []*time.Timer
 	switch {
 	case strings.HasPrefix(sc.event, "tip@"):
